@@ -4,8 +4,10 @@
 //	R2  go f(a...)                                    ->  { f, a evaluated here; simrt.Go(func(){ f(a...) }) }
 //	R3  for k, v := range <map with ordered key>      ->  loop over simrt.Iter (seeded order)
 //	R4  os.ReadFile / ioutil.ReadFile                 ->  simrt.ReadFile
-//	R5  report constructs the simulator does not manage (channels, select, sync/atomic,
-//	    other sync types, package time, math/rand)
+//	R6  chan T, make(chan T, n), ch <- v, <-ch, v, ok := <-ch, close(ch), len/cap(ch), range ch  ->  simrt.Chan[T]
+//	R7  sync.Once -> simrt.Once, time.Sleep -> simrt.Sleep, runtime.Gosched -> simrt.Yield
+//	R5  report constructs the simulator does not manage (select, sync/atomic, sync.Cond and friends,
+//	    timers, math/rand)
 //
 // Edits are byte-range splices driven by go/types; every line that is not touched
 // keeps its text and its line number. Test files are left alone.
@@ -217,6 +219,21 @@ func rewriteFile(fs *fileState) {
 				fs.add(s, e, false, func() string { return "simrt.ReadFile" })
 				rep.Edits["R4 ReadFile"]++
 				needSimrt = true
+			case path == "sync" && name == "Once":
+				s, e := fs.off(x.Pos()), fs.off(x.End())
+				fs.add(s, e, false, func() string { return "simrt.Once" })
+				rep.Edits["R7 sync.Once"]++
+				needSimrt = true
+			case path == "time" && name == "Sleep":
+				s, e := fs.off(x.Pos()), fs.off(x.End())
+				fs.add(s, e, false, func() string { return "simrt.Sleep" })
+				rep.Edits["R7 time.Sleep"]++
+				needSimrt = true
+			case path == "runtime" && name == "Gosched":
+				s, e := fs.off(x.Pos()), fs.off(x.End())
+				fs.add(s, e, false, func() string { return "simrt.Yield" })
+				rep.Edits["R7 runtime.Gosched"]++
+				needSimrt = true
 			default:
 				usesLeft[path]++
 				switch {
@@ -235,11 +252,76 @@ func rewriteFile(fs *fileState) {
 				}
 			}
 		case *ast.ChanType:
-			unmanaged(x.Pos(), "channel type")
+			ct := x
+			var self *edit
+			self = fs.add(fs.off(ct.Pos()), fs.off(ct.End()), true, func() string {
+				return "*simrt.Chan[" + fs.renderNode(ct.Value, self) + "]"
+			})
+			rep.Edits["R6 chan type"]++
+			needSimrt = true
 		case *ast.SelectStmt:
 			unmanaged(x.Pos(), "select statement")
 		case *ast.SendStmt:
-			unmanaged(x.Pos(), "channel send")
+			st := x
+			var self *edit
+			self = fs.add(fs.off(st.Pos()), fs.off(st.End()), true, func() string {
+				return postfix(fs.renderNode(st.Chan, self), st.Chan) + ".Send(" + fs.renderNode(st.Value, self) + ")"
+			})
+			rep.Edits["R6 send"]++
+			needSimrt = true
+		case *ast.UnaryExpr:
+			if x.Op == token.ARROW {
+				u := x
+				method := ".Recv()"
+				if tv, ok := info.Types[u]; ok {
+					if _, isTuple := tv.Type.(*types.Tuple); isTuple {
+						method = ".Recv2()"
+					}
+				}
+				var self *edit
+				self = fs.add(fs.off(u.Pos()), fs.off(u.End()), true, func() string {
+					return postfix(fs.renderNode(u.X, self), u.X) + method
+				})
+				rep.Edits["R6 receive"]++
+				needSimrt = true
+			}
+		case *ast.CallExpr:
+			if id, ok := x.Fun.(*ast.Ident); ok && len(x.Args) >= 1 {
+				if _, isBuiltin := info.Uses[id].(*types.Builtin); isBuiltin {
+					call := x
+					at := info.TypeOf(call.Args[0])
+					var ch *types.Chan
+					if at != nil {
+						ch, _ = at.Underlying().(*types.Chan)
+					}
+					if ch != nil {
+						var self *edit
+						switch id.Name {
+						case "make":
+							if ctype, ok := call.Args[0].(*ast.ChanType); ok {
+								self = fs.add(fs.off(call.Pos()), fs.off(call.End()), true, func() string {
+									n := "0"
+									if len(call.Args) > 1 {
+										n = fs.renderNode(call.Args[1], self)
+									}
+									return "simrt.MakeChan[" + fs.renderNode(ctype.Value, self) + "](" + n + ")"
+								})
+								rep.Edits["R6 make"]++
+								needSimrt = true
+							} else {
+								unmanaged(call.Pos(), "make of a named channel type")
+							}
+						case "close", "len", "cap":
+							m := map[string]string{"close": ".Close()", "len": ".Len()", "cap": ".Cap()"}[id.Name]
+							self = fs.add(fs.off(call.Pos()), fs.off(call.End()), true, func() string {
+								return postfix(fs.renderNode(call.Args[0], self), call.Args[0]) + m
+							})
+							rep.Edits["R6 "+id.Name]++
+							needSimrt = true
+						}
+					}
+				}
+			}
 		case *ast.GoStmt:
 			if fs.rewriteGo(x) {
 				needSimrt = true
@@ -263,7 +345,7 @@ func rewriteFile(fs *fileState) {
 	// Imports: add simrt, blank the ones that lost their last use.
 	for _, imp := range fs.file.Imports {
 		path := strings.Trim(imp.Path.Value, "\"")
-		if (path == "sync" || path == "os" || path == "io/ioutil") && usesLeft[path] == 0 && imp.Name == nil {
+		if (path == "sync" || path == "os" || path == "io/ioutil" || path == "time" || path == "runtime") && usesLeft[path] == 0 && imp.Name == nil {
 			s := fs.off(imp.Path.Pos())
 			fs.add(s, s, false, func() string { return "_ " })
 		}
@@ -336,7 +418,7 @@ func (fs *fileState) rewriteRange(r *ast.RangeStmt) bool {
 	m, ok := t.Underlying().(*types.Map)
 	if !ok {
 		if _, isChan := t.Underlying().(*types.Chan); isChan {
-			unmanaged(r.Pos(), "range over channel")
+			return fs.rewriteRangeChan(r)
 		}
 		return false
 	}
@@ -380,5 +462,47 @@ func (fs *fileState) rewriteRange(r *ast.RangeStmt) bool {
 	ce := fs.off(r.Body.Rbrace) + 1
 	fs.add(ce, ce, false, func() string { return " }" })
 	rep.Edits["R3 range-map"]++
+	return true
+}
+
+// postfix parenthesises a rendered operand unless it is already a primary expression.
+func postfix(text string, n ast.Expr) string {
+	switch n.(type) {
+	case *ast.Ident, *ast.SelectorExpr, *ast.IndexExpr, *ast.CallExpr, *ast.ParenExpr:
+		return text
+	}
+	return "(" + text + ")"
+}
+
+// rewriteRangeChan turns `for v := range ch { body }` into a receive loop on the simulated channel:
+//
+//	{ c := ch; v := c.Zero(); var ok bool; for { v, ok = c.Recv2(); if !ok { break }; body } }
+//
+// (one loop variable for the whole loop, as in go 1.18).
+func (fs *fileState) rewriteRangeChan(r *ast.RangeStmt) bool {
+	uniq++
+	ch := fmt.Sprintf("__ch%d", uniq)
+	ok := fmt.Sprintf("__ok%d", uniq)
+	hasV := r.Key != nil
+	if id, isID := r.Key.(*ast.Ident); isID && id.Name == "_" {
+		hasV = false
+	}
+	hs, he := fs.off(r.For), fs.off(r.Body.Lbrace)+1
+	fs.add(hs, he, false, func() string {
+		var b strings.Builder
+		fmt.Fprintf(&b, "{ %s := %s; var %s bool; ", ch, fs.renderNode(r.X, nil), ok)
+		v := "_"
+		if hasV {
+			v = fs.renderNode(r.Key, nil)
+			if r.Tok == token.DEFINE {
+				fmt.Fprintf(&b, "%s := %s.Zero(); _ = %s; ", v, ch, v)
+			}
+		}
+		fmt.Fprintf(&b, "for { %s, %s = %s.Recv2(); if !%s { break }; ", v, ok, ch, ok)
+		return b.String()
+	})
+	ce := fs.off(r.Body.Rbrace) + 1
+	fs.add(ce, ce, false, func() string { return " }" })
+	rep.Edits["R6 range-chan"]++
 	return true
 }
